@@ -497,3 +497,34 @@ func c11PartEnv(env *mc.Env, remainingParts int) *mc.Env {
 	p.Budget = share
 	return p
 }
+
+// c11Vacuity emits a summary part with the unit's vacuity counters: every oracle clause must have been exercised
+// non-trivially somewhere in the unit, otherwise the part says so (exhaustive=false plus a VACUOUS diagnostic).
+func c11Vacuity(env *mc.Env, unit string, parts []*mc.Result, required []string) {
+	res := mc.NewResult("C11", unit+"-vacuity", "enumeration")
+	sum := map[string]int64{}
+	for _, p := range parts {
+		for k, v := range p.Counters {
+			sum[k] += v
+		}
+	}
+	res.Exhaustive = true
+	var zero []string
+	for _, r := range required {
+		res.Counters[r] = sum[r]
+		if sum[r] == 0 {
+			zero = append(zero, r)
+		}
+	}
+	if len(zero) > 0 {
+		res.Exhaustive = false
+		res.Capped = fmt.Sprintf("VACUOUS: never exercised in this run: %v", zero)
+		res.Diag(res.Capped)
+	}
+	res.Rule = "sums of the vacuity counters over the parts of the unit (how often each oracle clause was exercised non-trivially)"
+	env.Emit(res)
+}
+
+var c11RoundVacuity = []string{"evict_calls_judged", "evict_calls_failed", "retry_after_failed_eviction", "order_pairs_judged",
+	"needed_judged_after_partial_release", "pending_release_told", "victim_of_other_task_not_evicted_again",
+	"tasks_stopped_with_candidates_left", "tasks_target_met", "tasks_target_not_met", "account_dimensions_judged_nonzero"}
